@@ -105,6 +105,7 @@ long long g_last_write_len; int g_last_write_ok; unsigned long long g_writes;
 /* the file created by the rotation in progress (for compression) */
 RotFile g_new; int g_new_is_w;  /* -1: anonymous */
 int g_gz_exists, g_gz_complete, g_gz_has_all;
+int g_out_hdr, g_out_payload, g_out_trailer;       /* header bytes, payload written, trailer words written to the .gz being produced */
 long long g_L;                  /* copy of the size limit for Inv7 (0: none) */
 
 #define ROT_VALID(w) (IS_BOOL((w).exists) && IS_BOOL((w).gz) && (!(w).exists || ((w).idx >= 1 && (w).idx < g_idx_bound && (w).jd != JD_NULL \
@@ -222,7 +223,7 @@ static inline BOOL QFile_open__QFlags_QIODevice_OpenModeFlag(QFile *f, QFlags_QI
         /* creating/truncating <rotated>.gz: must not destroy an existing compressed rotated file */
         EACH_W(if (g_w[k].exists && g_w[k].gz && g_w[k].jd == DEV(f).name.jd && g_w[k].idx == DEV(f).name.idx && !(g_new_is_w == k)) { g_lost += g_w[k].recs; }
         if (MAY_FAIL()) return 0;)
-        DEV(f).obj = OBJ_OUT; DEV(f).open = 1; DEV(f).mode = mode.v; g_gz_exists = 1; g_gz_complete = 0; g_gz_has_all = 0;
+        DEV(f).obj = OBJ_OUT; DEV(f).open = 1; DEV(f).mode = mode.v; g_gz_exists = 1; g_gz_complete = 0; g_gz_has_all = 0; g_out_hdr = 0; g_out_payload = 0; g_out_trailer = 0;
         SAFE_POINT("creation of the compressed file");
         return 1;
     }
@@ -267,6 +268,31 @@ static inline long long QIODevice_write__QByteArray(QIODevice *d, QByteArray dat
     OBL_C07(g_L <= 0 || g_A_size <= g_L || g_A_recs == 1, "Inv7: the active file is at most L bytes unless it consists of a single record");
     return data.len;
 }
+
+
+/* ------------------------------------------------------------------ compressFile at ledger level (byte layout: C08) */
+static inline BOOL QIODevice_putChar__char(QIODevice *d, char c)
+{ if (d->obj == OBJ_OUT && d->open) { if (g_out_hdr < 100) g_out_hdr++; } else g_foreign_touched++; return 1; }
+static inline long long QIODevice_write__cstr_longlong(QIODevice *d, cstr data, long long n)
+{
+    if (!(d->obj == OBJ_OUT && d->open)) { g_foreign_touched++; return -1; }
+    if (data.ptr != NULL) { if (g_out_trailer < 100) g_out_trailer++; }            /* reinterpret_cast<const char*>(&word) */
+    else if (data.id != 0 && data.owner == 0 && n >= 0 && n <= 16) { if (g_out_hdr < 100) g_out_hdr += (int)n; }   /* literal bytes */
+    else g_out_payload = 1;
+    g_gz_has_all = (g_out_hdr == 10 && g_out_trailer == 2);
+    return n;
+}
+static inline QByteArray QIODevice_readAll(QIODevice *d)
+{ QByteArray b; b.isnull = 0; b.id = nondet_int(); b.owner = 0; b.nl = 0; b.src_id = 0; b.src_isnull = 0; b.enc = 0;
+  long long n = (d->obj == OBJ_IN) ? g_new.size : nondet_ll(); __CPROVER_assume(n >= 0 && n <= INT_MAXV - 32); b.len = (int)n; return b; }
+static inline QByteArray qCompress__QByteArray_int(QByteArray data, int level)
+{ QByteArray b = data; int n = nondet_int(); __CPROVER_assume(n >= 0 && n <= INT_MAXV - 32); b.len = n; b.id = nondet_int(); return b; }
+static inline cstr QByteArray_constData(QByteArray b) { cstr c; c.isnull = 0; c.id = b.id; c.len = b.len; c.owner = 1; c.ptr = 0; return c; }
+static inline cstr QByteArray_data(QByteArray *b) { return QByteArray_constData(*b); }
+static inline cstr cstr_add(cstr c, long long k) { cstr r = c; r.len = (int)(c.len - k); return r; }
+static inline unsigned int qToLittleEndian__unsignedint(unsigned int v) { return v; }       /* little-endian host */
+static inline BOOL QFileDevice_atEnd(QFileDevice *f) { return NONDET_BOOL(); }
+static inline long long QIODevice_read__charP_longlong(QIODevice *d, char *buf, long long n) { long long r = nondet_ll(); __CPROVER_assume(r >= -1 && r <= n); return r; }
 
 /* ------------------------------------------------------------------ QFileInfo / QDir */
 typedef struct { QString path; } QFileInfo;
@@ -381,9 +407,18 @@ typedef struct { QList_QString *l; int i; } QList_QString_const_iterator;
 typedef QList_QString_const_iterator QList_QString_iterator;
 static inline QStringList QStringList_ctor(void) { QStringList l; l._base.n = 0; l._base.kind = L_BUILD; l._base.lo = 0; l._base.sorted = 0; l._base.own = 0; return l; }
 typedef struct { int v; } QFlags_QDir_Filter; typedef struct { int v; } QFlags_QDir_SortFlag;
-enum { E_QDir_Filter_Files = 2, E_QDir_Filter_Dirs = 1, E_QDir_Filter_Hidden = 0x100, E_QDir_Filter_NoDotAndDotDot = 0x6000, E_QDir_SortFlag_Name = 0, E_QDir_SortFlag_Time = 1 };
+enum { E_QDir_Filter_Dirs = 0x001, E_QDir_Filter_Files = 0x002, E_QDir_Filter_Drives = 0x004, E_QDir_Filter_NoSymLinks = 0x008, E_QDir_Filter_AllEntries = 0x007, E_QDir_Filter_TypeMask = 0x00f,
+       E_QDir_Filter_Readable = 0x010, E_QDir_Filter_Writable = 0x020, E_QDir_Filter_Executable = 0x040, E_QDir_Filter_Modified = 0x080, E_QDir_Filter_Hidden = 0x100, E_QDir_Filter_System = 0x200,
+       E_QDir_Filter_AllDirs = 0x400, E_QDir_Filter_CaseSensitive = 0x800, E_QDir_Filter_NoDot = 0x2000, E_QDir_Filter_NoDotDot = 0x4000, E_QDir_Filter_NoDotAndDotDot = 0x6000, E_QDir_Filter_NoFilter = -1,
+       E_QDir_SortFlag_Name = 0x00, E_QDir_SortFlag_Time = 0x01, E_QDir_SortFlag_Size = 0x02, E_QDir_SortFlag_Unsorted = 0x03, E_QDir_SortFlag_SortByMask = 0x03, E_QDir_SortFlag_DirsFirst = 0x04,
+       E_QDir_SortFlag_Reversed = 0x08, E_QDir_SortFlag_IgnoreCase = 0x10, E_QDir_SortFlag_DirsLast = 0x20, E_QDir_SortFlag_LocaleAware = 0x40, E_QDir_SortFlag_Type = 0x80, E_QDir_SortFlag_NoSort = -1 };
+typedef int QDir_Filter; typedef int QDir_SortFlag;
 static inline QFlags_QDir_Filter QFlags_QDir_Filter_ctor__QDir_Filter(int f) { QFlags_QDir_Filter r; r.v = f; return r; }
 static inline QFlags_QDir_SortFlag QFlags_QDir_SortFlag_ctor__QDir_SortFlag(int f) { QFlags_QDir_SortFlag r; r.v = f; return r; }
+static inline QFlags_QDir_SortFlag op_or__QDir_SortFlag_QDir_SortFlag(int a, int b) { QFlags_QDir_SortFlag r; r.v = a | b; return r; }
+static inline QFlags_QDir_SortFlag QFlags_QDir_SortFlag_op_or__QDir_SortFlag(QFlags_QDir_SortFlag a, int b) { a.v |= b; return a; }
+static inline QFlags_QDir_Filter op_or__QDir_Filter_QDir_Filter(int a, int b) { QFlags_QDir_Filter r; r.v = a | b; return r; }
+static inline QFlags_QDir_Filter QFlags_QDir_Filter_op_or__QDir_Filter(QFlags_QDir_Filter a, int b) { a.v |= b; return a; }
 int g_list_own_seen, g_list_next;        /* entries visited so far by the (single, in-order) traversal of the listing */
 /* QDir::entryList(QDir::Files[, sort]): every regular file of the directory once (A-fs); witnesses sit at arbitrary distinct positions */
 static inline QStringList fs_entryList(QDir d, int filter)
@@ -544,7 +579,7 @@ static inline BOOL QFile_remove__QString(QString path)
     /* compressFile removing the uncompressed original: only once the compressed copy is complete */
     if (g_new.exists && !path.gz && path.jd == g_new.jd && path.idx == g_new.idx && g_gz_exists) {
         g_comp_removes++;
-        if (MAY_FAIL()) return 0;
+        if (MAY_FAIL()) { g_gz_exists = 0; return 0; }      /* the original stays; the complete .gz is a duplicate copy the ledger no longer follows */
         if (!(g_gz_complete)) g_lost += g_new.recs;
         g_new.gz = 1; if (g_new_is_w == 0) g_w[0].gz = 1; if (g_new_is_w == 1) g_w[1].gz = 1;
         g_gz_exists = 0; g_R_count += 0;
@@ -561,4 +596,8 @@ static inline BOOL QFile_remove__QString(QString path)
     SAFE_POINT("remove (done)");
     return 1;
 }
+/* QFile::remove() (member): removes the file the object names */
+static inline BOOL QFile_remove(QFile *f) { if (f == &g_sinkfile) return QFile_remove__QString(fs_active_name()); return QFile_remove__QString(DEV(f).name); }
+static inline BOOL QFile_rename__QString(QFile *f, QString to) { if (f == &g_sinkfile) return QFile_rename__QString_QString(fs_active_name(), to); return QFile_rename__QString_QString(DEV(f).name, to); }
+static inline BOOL QFile_exists__QString(QString p) { if (p.tag == T_ACTIVE) return g_A_exists; return NONDET_BOOL(); }
 #endif
